@@ -68,6 +68,7 @@ FIXED = [
     (['C10', 'C05'], 'json/hostile/value/[]', 'an element of std::set which was skipped by the policies was inserted', '[3212121212121212121869482,2024259981] into std::set<int32_t> under the Skip policies inserted an indeterminate value for the skipped element (different garbage from memory and from a stream; now a value-initialised element like the slot of a vector); found by the thorough tier of C10'),
     (['C10', 'C07'], 'msgpack/hostile/error-category/ParsingException*-vs-*Mismatched types', 'required one byte after the type code of an extension', 'the two bytes D6 80 (fixext4 without data) into a map: memory input reported ParsingException, stream input MismatchedTypes; the memory reader demanded a byte after the extension type code, so a valid empty extension at the end of input (C7 00 05) was reported as truncated'),
     (['C07'], 'illformed-accepted/*/0xc1', 'silently skipped the byte code 0xC1', 'a document with the never-used byte code 0xC1 as the value of a member that the target does not load (e.g. {"id":1,"zz_unknown":<C1>}) was accepted: SkipValue treated it as a one-byte value; found by the thorough tier'),
+    (['C06'], 'data-differs/*/aru', 'std::array of single-byte integers was written to MsgPack as an array', 'std::array<uint8_t,3>{1,2,3} under a key was written as 93 01 02 03 (array of integers) while std::vector<uint8_t> and unsigned char[3] are written as C4 03 01 02 03 (bin): is_enumerable<> required iterator.operator*() and was false for raw-pointer iterators; found after adding native byte arrays to the model zoo'),
 ]
 
 KNOWN = [
